@@ -126,6 +126,17 @@ func randGFF(r *rand.Rand, L int) *gffRecord {
 		}
 		rec.Feats = append(rec.Feats, f)
 	}
+	// a row may occur twice, letter for letter (merged annotation tracks): both are features
+	if len(rec.Feats) >= 1 && len(rec.Feats) < 30 && r.Intn(8) == 0 {
+		src := rec.Feats[r.Intn(len(rec.Feats))]
+		cp := src
+		cp.Attrs = map[string]string{}
+		for k, v := range src.Attrs {
+			cp.Attrs[k] = v
+		}
+		at := r.Intn(len(rec.Feats) + 1)
+		rec.Feats = append(rec.Feats[:at], append([]gffFeature{cp}, rec.Feats[at:]...)...)
+	}
 	// features are rows of their own even when they carry the same ID, Name or Parent value
 	if len(rec.Feats) >= 2 && r.Intn(4) == 0 {
 		for n := 1 + r.Intn(3); n > 0; n-- {
